@@ -31,7 +31,10 @@ CRATES = {
     },
     "cdbc": {
         "dir": "file-formats/database/wow-cdbc",
-        "attach": [("src/writer.rs", "cdbc/writer.rs", "verif_kani_writer", "")],
+        "attach": [("src/writer.rs", "cdbc/writer.rs", "verif_kani_writer", ""),
+                   ("src/lib.rs", "env/vmap.rs", "verif_vmap", "pub(crate)")],
+        # scratch copy only: the writer's string-offset table becomes the association-list model of HashMap
+        "rewrite": [("src/writer.rs", r"^use std::collections::HashMap;$", "#[cfg(kani)] use crate::verif_vmap::VMap as HashMap;\n#[cfg(not(kani))] use std::collections::HashMap;")],
         "kani_args": ["--lib"],
     },
     "ffi": {
@@ -273,8 +276,8 @@ H("C17", "cdbc", _D, "quick", "C17.b header the writer emits is accepted by the 
 H("C17", "cdbc", _D, "thorough", "C17.c strings survive write->parse (incl. a string referenced twice), each string stored once, size law with a string block",
   ["c17c_strings_roundtrip_with_duplicate"], ["writer::DbcWriter::{write_records,build_string_block,write_record,write_value}", "parser::DbcParser::{parse_bytes,with_schema,parse_records}",
    "parser::RecordSet::get_string", "stringblock::StringBlock::{parse,get_string}"],
-  "three records with one string field referencing the concrete strings a, a, b", "3 records, 1 string field (HashMap keys must be concrete)",
-  stubs=[FMT, RS], timeout=2400)
+  "three records with one string field referencing the concrete strings a, a, b", "3 records, 1 string field",
+  stubs=[FMT, RS, "std::collections::HashMap in writer.rs -> association-list model harness/env/vmap.rs (scratch-copy rewrite; same insert/get/contains_key semantics)"], timeout=2400)
 H("C17", "cdbc", _D, "quick", "canary", ["c17_canary"], ["field_parser::parse_field_value"], "vacuity twin", "-", expect="canary", stubs=[FMT, RS])
 H("C05", "cdbc", _D, "quick", "C05.dbc header parsers and string lookups are total (no panic/overflow), derived offsets do not overflow",
   ["c05_dbc_header_total", "c05_dbc_wdb2_header_total", "c05_dbc_wdb5_header_total", "c05_dbc_string_block_total"],
